@@ -331,6 +331,27 @@ pub mod shim {
         }
         None
     }
+    /// contract of `s.iter().rev().find_map(f)` (N2): the result of `f` on the LAST element for which it is Some
+    pub fn rev_find_map<T, U, F: Fn(&T) -> Option<U>>(s: &[T], f: F) -> (r: Option<U>)
+        requires forall|i: int| 0 <= i < s@.len() ==> f.requires((&#[trigger] s@[i],)),
+        ensures match r {
+            Some(u) => exists|i: int| 0 <= i < s@.len() && f.ensures((&#[trigger] s@[i],), Some(u))
+                && forall|j: int| i < j < s@.len() ==> f.ensures((&#[trigger] s@[j],), None::<U>),
+            None => forall|j: int| 0 <= j < s@.len() ==> f.ensures((&#[trigger] s@[j],), None::<U>),
+        }
+    {
+        let mut i = s.len();
+        while i > 0
+            invariant i <= s@.len(), forall|k: int| 0 <= k < s@.len() ==> f.requires((&#[trigger] s@[k],)),
+                forall|j: int| i <= j < s@.len() ==> f.ensures((&#[trigger] s@[j],), None::<U>),
+            decreases i
+        {
+            i = i - 1;
+            let o = f(&s[i]);
+            if o.is_some() { return o; }
+        }
+        None
+    }
     /// contract of `s.iter().rposition(f)` for any element type (N2)
     pub fn rposition_ref<T, F: Fn(&T) -> bool>(s: &[T], f: F) -> (r: Option<usize>)
         requires forall|x: &T| f.requires((x,)),
